@@ -227,6 +227,50 @@ def run(tier: str, only=None) -> int:
             continue
         seen.add(kind)
         rep.violation("c12:" + kind, f"{data!r}: {detail}", {"check": PID, "sub": "decode", "data": repr(data), "detail": detail})
+    # several values written one after another into one stream: load() consumes exactly one value
+    import io as _io
+
+    class ExactStream:
+        """refuses to be read beyond a limit that is moved forward value by value"""
+
+        def __init__(self, data):
+            self.data, self.pos, self.limit, self.over = data, 0, 0, False
+
+        def read(self, n=-1):
+            if n is None or n < 0:
+                n = len(self.data) - self.pos
+                self.over = True
+            if self.pos + n > self.limit:
+                self.over = True
+            out = self.data[self.pos : self.pos + n]
+            self.pos += len(out)
+            return out
+
+    seqs = [vals[i : i + 4] for i in range(0, min(len(vals), 4000), 397)] + [[None, [], {}, b"", ""], [1, 2**40, -(2**31), 1.5]]
+    nseq = 0
+    for seq in seqs:
+        seq = [v for v in seq if not (type(v) is int and abs(v) >= 10**4299)]
+        f = _io.BytesIO()
+        ends = []
+        for v in seq:
+            execnet.dump(f, v)
+            ends.append(f.tell())
+        data = f.getvalue()
+        f.seek(0)
+        es = ExactStream(data)
+        for v, end in zip(seq, ends):
+            nseq += 1
+            try:
+                a = execnet.load(f)
+                es.limit = end
+                b = execnet.load(es)
+            except Exception as e:  # noqa: BLE001
+                rep.violation("c12:stream-sequence", f"values dumped one after another into one stream: load() of value {srepr(v, 60)} raised {type(e).__name__}: {e}", {"check": PID, "sub": "stream"})
+                break
+            if not E.same(a, v) or not E.same(b, v) or f.tell() != end or es.pos != end or es.over:
+                rep.violation("c12:stream-sequence", f"load() must consume exactly one value (up to its STOP byte): after {srepr(v, 60)} the stream is at {f.tell()} / {es.pos}, the value ends at {end}; read beyond it: {es.over}", {"check": PID, "sub": "stream"})
+                break
+    rep.add_enumeration("stream-sequences", nseq, nseq)
     # version byte
     body = R.encode([1, "x"])[1:]
     n = 0
